@@ -2,7 +2,8 @@ package main
 
 import (
 	"fmt"
-	"go/ast"
+	_ "go/ast"
+	"go/constant"
 	"go/token"
 	"go/types"
 	"strings"
@@ -124,91 +125,240 @@ func ruleOutput(c *Ctx) {
 	}
 	c.atLeast("discarded error results", nDrop, 12)
 
-	// ---- CLOSE (builtin)
+	// ---- CLOSE (builtin): the handler of close() evaluated on the SSA form for "the name denotes an input stream"
+	// and "the name denotes an output stream": on every path the entry is deleted from its table and the stream's
+	// Close is called
 	vm := buildVMModel(c)
 	info := vm.pkg.TypesInfo
-	if bfd := c.funcDecl("interp", "interp.callBuiltin"); bfd != nil {
-		ast.Inspect(bfd.Body, func(n ast.Node) bool {
-			cc, ok := n.(*ast.CaseClause)
-			if !ok || len(cc.List) != 1 || constName(info, cc.List[0]) != "BuiltinClose" {
-				return true
+	_ = info
+	if cb := c.ssaFunc("interp", "interp.callBuiltin"); cb != nil {
+		closeVal := int64(-1)
+		for _, k := range c.constsOfType("internal/compiler", "BuiltinOp") {
+			if k.Name() == "BuiltinClose" {
+				closeVal, _ = constant.Int64Val(k.Val())
 			}
-			nBr := 0
-			var walkIf func(is *ast.IfStmt)
-			walkIf = func(is *ast.IfStmt) {
-				nBr++
-				del, cl := false, false
-				for _, s := range is.Body.List {
-					switch x := s.(type) {
-					case *ast.ExprStmt:
-						if call, ok := x.X.(*ast.CallExpr); ok && isIdent(call.Fun, "delete") {
-							del = true
-						}
-					case *ast.AssignStmt:
-						for _, r := range x.Rhs {
-							if call, ok := r.(*ast.CallExpr); ok {
-								if se, ok := call.Fun.(*ast.SelectorExpr); ok && se.Sel.Name == "Close" {
-									cl = true
-								}
-							}
-						}
+		}
+		var entry *ssa.BasicBlock
+		for _, b := range cb.Blocks {
+			if len(b.Instrs) == 0 {
+				continue
+			}
+			iff, ok := b.Instrs[len(b.Instrs)-1].(*ssa.If)
+			if !ok {
+				continue
+			}
+			if bo, ok := iff.Cond.(*ssa.BinOp); ok && bo.Op == token.EQL {
+				if k, ok := bo.Y.(*ssa.Const); ok && k.Value != nil && isNamed(bo.X.Type(), modPath+"/internal/compiler", "BuiltinOp") {
+					if v, ok := constant.Int64Val(k.Value); ok && v == closeVal && entry == nil {
+						entry = b.Succs[0]
 					}
 				}
-				c.check(del && cl, fmt.Sprintf("close-builtin:branch#%d", nBr), is.Pos(), "close(): the stream is removed from its table and closed, unconditionally", "close(): in one branch the stream is not both removed from its table and closed unconditionally: after a failing close the dead stream stays registered (later output to the same name is lost) or the stream is never closed")
-				if e, ok := is.Else.(*ast.IfStmt); ok {
-					walkIf(e)
-				}
 			}
-			for _, s := range cc.Body {
-				if is, ok := s.(*ast.IfStmt); ok && is.Init != nil {
-					walkIf(is)
-					break
+		}
+		if entry == nil || closeVal < 0 {
+			c.undecided("close-builtin:anchor", cb.Pos(), "the handler of BuiltinClose was not found in callBuiltin's dispatch")
+		} else {
+			ipkg := c.ssaPkg("interp")
+			nBr := 0
+			for _, table := range []string{"inputStreams", "outputStreams"} {
+				nBr++
+				e := &sengine{pkg: ipkg}
+				e.load = func(p *spath, fr *sframe, addr iv, in *ssa.UnOp) (iv, bool) {
+					if f, x := fieldOfAddr(in.X); f != nil && isInterp(x.Type()) {
+						switch f.Name() {
+						case "inputStreams", "outputStreams", "scanners":
+							return ivSym("table:" + f.Name()), true
+						}
+					}
+					return iv{}, false
 				}
+				e.lookup = func(p *spath, fr *sframe, x *ssa.Lookup, m, key iv) (iv, bool) {
+					if m.k != 's' {
+						return iv{}, false
+					}
+					val := iv{k: 'n'}
+					if m.s == "table:"+table {
+						val = ivSym("stream")
+					}
+					if x.CommaOk {
+						return ivTuple(val, ivBool(val.k == 's')), true
+					}
+					return val, true
+				}
+				e.binop = func(op token.Token, a, b iv) (iv, bool) {
+					if op != token.EQL && op != token.NEQ {
+						return iv{}, false
+					}
+					if (a.k == 's' && b.k == 'n') || (a.k == 'n' && b.k == 's') {
+						return ivBool(op == token.NEQ), true
+					}
+					return iv{}, false
+				}
+				e.builtin = func(p *spath, fr *sframe, call *ssa.Call, name string, args []iv) (iv, bool) {
+					if name == "delete" && len(args) == 2 && args[0].k == 's' {
+						p.notes["delete:"+args[0].s]++
+					}
+					return iv{}, false
+				}
+				var eng = e
+				e.call = func(p *spath, fr *sframe, call *ssa.Call, callee *ssa.Function, args []iv) (iv, callAction) {
+					if call.Call.IsInvoke() {
+						recv := eng.val(fr, call.Call.Value)
+						if call.Call.Method.Name() == "Close" && recv.k == 's' && recv.s == "stream" {
+							p.notes["closed"]++
+							return iv{}, callHandled
+						}
+						return iv{}, callHandled
+					}
+					if callee != nil && callee.Name() == "replaceTop" {
+						return iv{}, callStop // the result is pushed: the handler is done
+					}
+					return iv{}, callDefault
+				}
+				e.enter = func(callee *ssa.Function, args []iv) bool {
+					for _, a := range args {
+						if a.k == 's' && a.s == "stream" {
+							return true
+						}
+					}
+					return false
+				}
+				e.startAt(cb, entry, nil)
+				paths, bad := 0, 0
+				for _, o := range e.outcomes {
+					if o.panicked {
+						continue
+					}
+					paths++
+					if o.notes["delete:table:"+table] == 0 || o.notes["closed"] == 0 {
+						bad++
+					}
+				}
+				key := "close-builtin:" + table
+				if len(e.problems) > 0 {
+					c.undecided(key, cb.Pos(), "the close() handler could not be evaluated: %v", e.problems)
+					continue
+				}
+				c.check(paths > 0 && bad == 0, key, entry.Instrs[0].Pos(), "close() of a name in "+table+": on every path the entry is removed from the table and the stream is closed", "close(): for a name in "+table+" the stream is not both removed from its table and closed on every path: after a failing close the dead stream stays registered (later output to the same name is lost) or the stream is never closed")
 			}
 			c.atLeast("branches of close()", nBr, 2)
-			return false
-		})
+		}
 	}
 
-	// ---- CLOSEALL
-	if cfd := c.funcDecl("interp", "interp.closeAll"); cfd != nil {
+	// ---- CLOSEALL: every stream table is ranged over with Close on each element, and standard output is flushed,
+	// at points every return of closeAll is dominated by (also through helpers it calls unconditionally)
+	if ca := c.ssaFunc("interp", "interp.closeAll"); ca != nil {
 		closes := map[string]bool{}
 		flushOut := false
-		for _, s := range cfd.Body.List {
-			switch x := s.(type) {
-			case *ast.RangeStmt:
-				if se, ok := x.X.(*ast.SelectorExpr); ok {
-					hasClose := false
-					ast.Inspect(x.Body, func(m ast.Node) bool {
-						if call, ok := m.(*ast.CallExpr); ok {
-							if s2, ok := call.Fun.(*ast.SelectorExpr); ok && s2.Sel.Name == "Close" {
-								hasClose = true
-							}
-						}
-						return true
-					})
-					if hasClose && len(x.Body.List) == 1 {
-						closes[se.Sel.Name] = true
+		var scanFn func(fn *ssa.Function, depth int)
+		scanFn = func(fn *ssa.Function, depth int) {
+			if depth > 2 || len(fn.Blocks) == 0 {
+				return
+			}
+			var rets []*ssa.BasicBlock
+			for _, b := range fn.Blocks {
+				if len(b.Instrs) > 0 {
+					if _, ok := b.Instrs[len(b.Instrs)-1].(*ssa.Return); ok {
+						rets = append(rets, b)
 					}
 				}
-			case *ast.IfStmt:
-				if as, ok := x.Init.(*ast.AssignStmt); ok && len(as.Rhs) == 1 {
-					if ta, ok := as.Rhs[0].(*ast.TypeAssertExpr); ok {
-						if se, ok := ta.X.(*ast.SelectorExpr); ok && se.Sel.Name == "output" {
-							ast.Inspect(x.Body, func(m ast.Node) bool {
-								if call, ok := m.(*ast.CallExpr); ok {
-									if s2, ok := call.Fun.(*ast.SelectorExpr); ok && s2.Sel.Name == "Flush" {
-										flushOut = true
+			}
+			uncond := func(b *ssa.BasicBlock) bool {
+				for _, r := range rets {
+					if !b.Dominates(r) {
+						return false
+					}
+				}
+				return len(rets) > 0
+			}
+			for _, b := range fn.Blocks {
+				for _, in := range b.Instrs {
+					switch x := in.(type) {
+					case *ssa.Range:
+						f := interpFieldLoad(x.X)
+						if f == "" || !uncond(b) {
+							continue
+						}
+						// a Close on the element somewhere in the loop
+						allInstrs(fn, func(i2 ssa.Instruction) {
+							call, ok := i2.(ssa.CallInstruction)
+							if !ok || !call.Common().IsInvoke() || call.Common().Method.Name() != "Close" {
+								return
+							}
+							ex, ok := call.Common().Value.(*ssa.Extract)
+							if !ok {
+								return
+							}
+							nx, ok := ex.Tuple.(*ssa.Next)
+							if !ok || nx.Iter != ssa.Value(x) {
+								return
+							}
+							// every iteration closes its element: from the body's first block the loop head is only
+							// reached through the block that calls Close, and nothing leaves the loop from inside the body
+							head := nx.Block()
+							if len(head.Instrs) == 0 {
+								return
+							}
+							iff, ok := head.Instrs[len(head.Instrs)-1].(*ssa.If)
+							if !ok {
+								return
+							}
+							_ = iff
+							body, closeBlk := head.Succs[0], i2.Block()
+							if body != closeBlk && reachableAvoiding(body, closeBlk)[head] {
+								return // an iteration can skip the Close (a conditional continue)
+							}
+							fromBody := reachableAvoiding(body, head)
+							fromBody[body] = true
+							inLoop := map[*ssa.BasicBlock]bool{}
+							for lb := range fromBody {
+								if lb == head || reachableFrom(lb)[head] {
+									inLoop[lb] = true // on the cycle: it can get back to the loop head
+								}
+							}
+							for lb := range inLoop {
+								for _, sc := range lb.Succs {
+									if sc != head && !inLoop[sc] {
+										if len(sc.Instrs) > 0 {
+											if _, isPanic := sc.Instrs[len(sc.Instrs)-1].(*ssa.Panic); isPanic {
+												continue
+											}
+										}
+										return // the loop is left early (break / return): the remaining streams stay open
 									}
 								}
-								return true
-							})
+							}
+							closes[f] = true
+						})
+					case *ssa.Call:
+						cc := x.Common()
+						if cc.IsInvoke() && cc.Method.Name() == "Flush" && traceInterpField(cc.Value, 0) == "output" {
+							// reached under nothing but the "is it a flusher" type test: the test's block is unconditional
+							for _, d := range fn.Blocks {
+								if d == b || !d.Dominates(b) || !uncond(d) || len(d.Instrs) == 0 {
+									continue
+								}
+								if iff, ok := d.Instrs[len(d.Instrs)-1].(*ssa.If); ok && d.Succs[0] == b {
+									if ex, ok := iff.Cond.(*ssa.Extract); ok {
+										if _, isTA := ex.Tuple.(*ssa.TypeAssert); isTA {
+											flushOut = true
+										}
+									}
+								}
+							}
+							if uncond(b) {
+								flushOut = true
+							}
+						}
+						if cal := cc.StaticCallee(); cal != nil && cal.Pkg == fn.Pkg && uncond(b) {
+							scanFn(cal, depth+1)
 						}
 					}
 				}
 			}
 		}
-		c.check(closes["inputStreams"] && closes["outputStreams"] && flushOut, "closeAll:unconditional", cfd.Pos(), "closeAll closes every input stream and every output stream and flushes standard output as unconditional top-level steps", fmt.Sprintf("closeAll no longer closes all streams and flushes standard output unconditionally (top-level close loops found: %v, stdout flush: %v): output buffered for a file or command before the end of the run (or before a cancellation) is lost", keys(closes), flushOut))
+		scanFn(ca, 0)
+		c.check(closes["inputStreams"] && closes["outputStreams"] && flushOut, "closeAll:unconditional", ca.Pos(), "closeAll closes every input stream and every output stream and flushes standard output as unconditional steps", fmt.Sprintf("closeAll no longer closes all streams and flushes standard output unconditionally (close loops found: %v, stdout flush: %v): output buffered for a file or command before the end of the run (or before a cancellation) is lost", keys(closes), flushOut))
 	} else {
 		c.undecided("anchor:closeAll", token.NoPos, "closeAll not found")
 	}
@@ -362,16 +512,66 @@ func ruleOutput(c *Ctx) {
 			okOne = false
 		}
 		c.check(okOne, "one-stream", gos.Pos(), "the stream table is consulted first and every newly opened stream is registered under the looked-up name", "getOutputStream does not register every stream it opens under the name it looked up (after looking it up): the same name could denote two open streams, so a file is truncated twice or output goes to a stale stream")
-		for _, s := range []string{"/dev/stdout", "/dev/stderr"} {
-			key := "special-name:" + s
-			b := special[s]
-			if b == nil || openCall == nil {
-				c.bad(key, gos.Pos(), "getOutputStream does not compare the name with %q before opening a file: the name would be opened as a separate file stream and its output interleaved out of order with standard output", s)
-				continue
+		// special names: in whichever function opens a file for writing, the open is reached only when the name
+		// has been compared with (and is not) /dev/stdout and /dev/stderr
+		_ = special
+		_ = specialSucc
+		_ = openCall
+		nOpenW := 0
+		for _, of := range fns {
+			var opens []ssa.Instruction
+			sp := map[string]*ssa.BasicBlock{}
+			spSucc := map[string]int{}
+			allInstrs(of, func(in ssa.Instruction) {
+				switch x := in.(type) {
+				case *ssa.Call:
+					cc := x.Common()
+					if !cc.IsInvoke() && cc.StaticCallee() == nil && isNamed(cc.Value.Type(), modPath+"/interp", "OpenFileFunc") && len(cc.Args) >= 2 {
+						if fl := constInts(cc.Args[1], 0); fl != nil {
+							for _, f := range fl {
+								if f&(oWRONLY|oRDWR|oCREATE|oTRUNC|oAPPEND) != 0 {
+									opens = append(opens, in)
+									break
+								}
+							}
+						}
+					}
+				case *ssa.BinOp:
+					if x.Op == token.EQL || x.Op == token.NEQ {
+						for _, op := range []ssa.Value{x.X, x.Y} {
+							if k, ok := op.(*ssa.Const); ok && k.Value != nil {
+								s := strings.Trim(k.Value.ExactString(), `"`)
+								if s == "/dev/stdout" || s == "/dev/stderr" {
+									for _, r := range *x.Referrers() {
+										if ifi, ok := r.(*ssa.If); ok {
+											sp[s] = ifi.Block()
+											spSucc[s] = 0
+											if x.Op == token.NEQ {
+												spSucc[s] = 1
+											}
+										}
+									}
+								}
+							}
+						}
+					}
+				}
+			})
+			for _, oc := range opens {
+				nOpenW++
+				for _, s := range []string{"/dev/stdout", "/dev/stderr"} {
+					key := "special-name:" + s
+					b := sp[s]
+					if b == nil {
+						c.bad(key, oc.Pos(), "%s does not compare the name with %q before opening a file: the name would be opened as a separate file stream and its output interleaved out of order with standard output", fnKey(of), s)
+						continue
+					}
+					okS := b.Dominates(oc.Block()) && !reachableAvoiding(b.Succs[spSucc[s]], b)[oc.Block()]
+					c.check(okS, key, oc.Pos(), "every file open is reached only when the name is not "+s, "a file open for writing can be reached with the name "+s+" (e.g. for one of the redirection operators): it would be opened as a separate stream instead of using the existing standard stream, so output is reordered")
+				}
 			}
-			okS := b.Dominates(openCall.Block()) && !reachableAvoiding(b.Succs[specialSucc[s]], b)[openCall.Block()]
-			c.check(okS, key, openCall.Pos(), "every file open is reached only when the name is not "+s, "a file open for writing can be reached with the name "+s+" (e.g. for one of the redirection operators): it would be opened as a separate stream instead of using the existing standard stream, so output is reordered")
 		}
+		c.atLeast("opens for writing", nOpenW, 1)
 	}
 
 	// ---- CHILD-WRITER
